@@ -20,6 +20,13 @@ let model input =
   let s0 = Chain.init h.gid h.gpl in
   let (_, clean) = run_outs h.forbidden s0 h.subs in
   let (_, pre) = run_outs h.forbidden s0 (firstn i h.subs) in
+  if mode = "ikill" then begin
+    (* killed during the first start between the migrations and the genesis transaction: the store is empty;
+       the restart (database.Init) inserts genesis; delivery then equals the uninterrupted run *)
+    let restarted = ChainFields.restart h.gid h.gpl [] in
+    let (red, final) = run_outs h.forbidden restarted h.subs in
+    Printf.sprintf "pre:|crash:X/%s|redeliver:%s/%s|clean:%s" (rows_string restarted) (Stdlib.String.concat "," red) (rows_string final) (rows_string clean)
+  end else
   let hi = Stdlib.List.nth h.subs i in
   let sf_hits = mode = "sfault" && Crash.stmt_fault_hits h.forbidden pre hi (nat_of_int k) in
   let crash = if mode = "sfault" then
